@@ -241,6 +241,7 @@ type VC struct {
 	declared map[string]bool
 	specErrs []string
 	inQuant  int
+	proveCache map[string]bool
 }
 
 func newVC(eng *Engine, funcKey string) *VC {
